@@ -1062,6 +1062,14 @@ def _get_slice_stmtlike_old(
                                         docstr=fst.FST.get_option('docstr', options),
                                         docstr_strict_exclude=asts[0] if asts and start else None)  # if slice gotten doesn't start at 0 then first element cannot be a 'strict' docstr even though it is first in the new slice
 
+    if not one and field in ('handlers', 'cases'):  # the container was offset and dedented along with its children which can leave it off (negative column if first line was dedented, missing suffix lines), it always spans the whole new source
+        get_ast.lineno = 1
+        get_ast.col_offset = 0
+        get_ast.end_lineno = len(ls := fst_._lines)
+        get_ast.end_col_offset = ls[-1].lenbytes
+
+        fst_._touch()
+
     if cut and is_last_child:  # correct for removed last child nodes or last nodes past the block open colon
         _set_end_pos_after_del(self, block_loc.ln, block_loc.col, put_loc.ln, put_loc.col)
 
